@@ -6,8 +6,9 @@
    Model/Reconcile.v (proxy.Manager / visitor.Manager UpdateAll and the manager operations).
    Histories are operation lists; every statement quantifies over all of them. *)
 From Coq Require Import List ZArith Bool.
-From FRP Require Import Model.Health Model.Wrapper Model.Reconcile
-  Proofs.HealthProofs Proofs.WrapperProofs Proofs.ReconcileProofs Proofs.ReconcileInv.
+From FRP Require Import Model.Health Model.Wrapper Model.Reconcile Model.HealthGate Model.ClientServer
+  Proofs.HealthProofs Proofs.WrapperProofs Proofs.ReconcileProofs Proofs.ReconcileInv
+  Proofs.VisitorMgrProofs Proofs.HealthGateProofs.
 Import ListNotations.
 Open Scope Z_scope.
 
@@ -179,7 +180,136 @@ Theorem C19_manager_invariant_all_histories : forall t ops,
 Proof. intros t ops. exact (pm_history_inv t ops pm_init pm_wf_init). Qed.
 Print Assumptions C19_manager_invariant_all_histories.
 
+(* ================= monitor composed with wrapper ================= *)
+
+(* One statement from probe outcomes to NewProxy / CloseProxy.  A health-checked wrapper and its
+   monitor (callbacks wired as in NewWrapper) run any interleaving of probes (with any outcomes),
+   worker iterations, start replies, work connections and a Stop.  At every step, with
+   healthy := "some probe so far succeeded and fewer than maxFailed probes failed since the last
+   success" (hm_spec_ok over the probe outcomes processed so far):
+   NewProxy is sent only if healthy; a worker iteration while not healthy sends CloseProxy for a
+   registered or registering proxy; a worker iteration while healthy sends NewProxy for a proxy that
+   is new or was withdrawn; probes themselves send nothing. *)
+Theorem C19_probe_outcomes_decide_registration : forall k max t ops, 1 <= max ->
+  Forall (hg_step_ok max t) (snd (hg_run k (hm_full max) t hg_init ops)).
+Proof. intros k max t ops Hm. exact (proj2 (hg_history k max t ops hg_init Hm (hg_inv_init max))). Qed.
+Print Assumptions C19_probe_outcomes_decide_registration.
+
+(* ================= asynchronous replies: convergence refuted (F-C19c) ================= *)
+
+(* Client and server over two FIFO channels (Model/ClientServer.v); NewProxyResp carries only the
+   proxy name.  Wanted: whenever both channels are empty, a configured proxy is registered at the
+   server iff the client reports it running.  REFUTED: a reload that changes proxy 7 while the
+   NewProxy of the replaced wrapper is still unanswered, that first NewProxy being refused by the
+   server: the error reply is taken by the NEW wrapper (start error), the success reply to the new
+   wrapper's own NewProxy is then ignored ("status not wait start").  Both channels are empty, the
+   server has 7 registered, the client reports start error and closes every work connection for it;
+   the retry after startErrTimeout is refused by the server ("already registered"), so the state is
+   permanent.  Replayed on the real code by the `system` driver (held + rejected NewProxy). *)
+Definition C19_late_error_witness : list cs_op :=
+  let x0 := {| rc_name := 7; rc_val := 0; rc_hc := false |} in
+  let x1 := {| rc_name := 7; rc_val := 1; rc_hc := false |} in
+  [CSClient (PMUpdate [x0]); CSClient (PMTick 0 1);          (* NewProxy(7, old) sent *)
+   CSClient (PMUpdate [x1]); CSClient (PMTick 1 2);          (* CloseProxy(7), NewProxy(7, new) sent *)
+   CSServer false; CSServer true; CSServer true;             (* old refused; close; new registered *)
+   CSDeliver 3; CSDeliver 4].                                (* error -> new wrapper; success ignored *)
+
+Theorem C19_converges_with_async_replies_refuted :
+  exists ops, let t := {| pw_wait := 20000; pw_errto := 30000 |} in
+    let s := cs_run t cs_init ops in
+    cs_quiet s = true /\ cs_agree s = false /\
+    (exists e, rc_get (pm_map (cs_pm s)) 7 = Some e /\ pw_ph (pe_w e) = PWStartErr) /\ In 7 (cs_srv s) /\
+    (* the retry after the back-off is refused as well: same situation again *)
+    let s' := cs_run t s [CSClient (PMTick 1 40000); CSServer true; CSDeliver 40001] in
+    cs_quiet s' = true /\ cs_agree s' = false.
+Proof. exists C19_late_error_witness. vm_compute. repeat split; eauto. Qed.
+Print Assumptions C19_converges_with_async_replies_refuted.
+
+(* what does hold (partial): without a replacement in between — the reply is handled by the wrapper
+   that sent the request while it is still waiting — a success reply makes it running and an error
+   reply puts it into start error, from where it is retried (C19_start_error_retried_after_backoff);
+   and for synchronous exchanges the `system` driver compares the real client/server pair with
+   the model.  Excluded input class, exactly: a reload replaces or removes wrapper n while a NewProxy
+   of the replaced wrapper is unanswered and a wrapper for n exists when that reply arrives. *)
+Theorem C19_reply_to_waiting_sender_partial : forall t w now,
+  pw_ph w = PWWait ->
+  (pw_ph (fst (pw_step t w (PWResp now false true))) = PWRunning /\
+   snd (pw_step t w (PWResp now false true)) = [PWORespOk]) /\
+  (pw_ph (fst (pw_step t w (PWResp now true true))) = PWStartErr /\
+   pw_lastErr (fst (pw_step t w (PWResp now true true))) = now /\
+   snd (pw_step t w (PWResp now true true)) = [PWORespErr]).
+Proof. intros t w now H. simpl. rewrite H. simpl. repeat split. Qed.
+Print Assumptions C19_reply_to_waiting_sender_partial.
+
+(* ================= visitors ================= *)
+
+(* "its visitors converge to exactly the configured ones": from every well-formed visitor-manager
+   state (vm_wf: unique names, running visitors are configured; holds initially, preserved), after
+   UpdateAll cfgs with any results of visitor.Run(): the configured table is exactly the first entry
+   per name of cfgs; an unchanged entry keeps its visitor object and no event mentions it; the
+   running visitor of a removed or changed entry is closed; new and changed entries are started
+   (running with a fresh object iff Run() succeeds); unconfigured names have no visitor. *)
+Theorem C19_visitors_converge : forall s cfgs ok, vm_wf s ->
+  let r := vm_update s cfgs ok in
+  vm_wf (fst r) /\
+  (forall n, rc_get (vm_cfgs (fst r)) n = rc_first cfgs n) /\
+  (forall n c, rc_get (vm_cfgs s) n = Some c -> rc_first cfgs n = Some c ->
+     rc_get (vm_vis (fst r)) n = rc_get (vm_vis s) n /\
+     (forall e, In e (snd r) -> match e with VMClosed _ m | VMStarted _ m | VMStartFailed m => m <> n end)) /\
+  (forall n c id, rc_get (vm_cfgs s) n = Some c -> rc_first cfgs n <> Some c ->
+     rc_get (vm_vis s) n = Some id -> In (VMClosed id n) (snd r)) /\
+  (forall n c', rc_first cfgs n = Some c' -> rc_get (vm_cfgs s) n <> Some c' ->
+     if ok n then exists id, vm_next s <= id /\ rc_get (vm_vis (fst r)) n = Some id /\ In (VMStarted id n) (snd r)
+     else rc_get (vm_vis (fst r)) n = None /\ In (VMStartFailed n) (snd r)) /\
+  (forall n, rc_first cfgs n = None -> rc_get (vm_vis (fst r)) n = None).
+Proof. exact vm_update_converges. Qed.
+Print Assumptions C19_visitors_converge.
+
+(* reloading the identical visitor set (duplicates or not, whatever Run() would answer) is a no-op *)
+Theorem C19_visitor_duplicate_names_stable : forall s cfgs ok1 ok2, vm_wf s ->
+  vm_update (fst (vm_update s cfgs ok1)) cfgs ok2 = (fst (vm_update s cfgs ok1), []).
+Proof. exact vm_update_identical. Qed.
+Print Assumptions C19_visitor_duplicate_names_stable.
+
+(* one round of keepVisitorsRunning: configuration untouched, running visitors untouched, nothing
+   closed, and every configured visitor whose start had failed is started again (running iff Run()
+   now succeeds); if every Run() succeeds all configured visitors run afterwards *)
+Theorem C19_keep_visitors_running_restarts_failed : forall s ok, vm_wf s ->
+  let r := vm_keep s ok in
+  (vm_wf (fst r) /\ vm_cfgs (fst r) = vm_cfgs s /\
+   (forall n id, rc_get (vm_vis s) n = Some id -> rc_get (vm_vis (fst r)) n = Some id) /\
+   (forall n c, rc_get (vm_cfgs s) n = Some c -> rc_get (vm_vis s) n = None ->
+      if ok n then exists id, vm_next s <= id /\ rc_get (vm_vis (fst r)) n = Some id /\ In (VMStarted id n) (snd r)
+      else rc_get (vm_vis (fst r)) n = None) /\
+   (forall e, In e (snd r) -> match e with VMClosed _ _ => False | _ => True end)) /\
+  ((forall n, ok n = true) ->
+   forall n c, rc_get (vm_cfgs (fst r)) n = Some c -> rc_get (vm_vis (fst r)) n <> None).
+Proof.
+  intros s ok Hwf. split; [exact (vm_keep_restarts s ok Hwf)|].
+  intros Hok. exact (vm_keep_all_running s ok Hwf Hok).
+Qed.
+Print Assumptions C19_keep_visitors_running_restarts_failed.
+
 (* ---- the hypotheses are satisfiable / the statements are not vacuous ---- *)
+Example C19_ex_vm_wf_init : vm_wf vm_init.
+Proof. exact vm_wf_init. Qed.
+
+Example C19_ex_visitor_start_failed_then_kept :
+  let v := {| rc_name := 3; rc_val := 1; rc_hc := false |} in
+  let '(s1, ev1) := vm_update vm_init [v] (fun _ => false) in
+  ev1 = [VMStartFailed 3] /\ rc_get (vm_vis s1) 3 = None /\
+  snd (vm_keep s1 (fun _ => true)) = [VMStarted 0 3].
+Proof. repeat split. Qed.
+
+Example C19_ex_gate :
+  let t := {| pw_wait := 20000; pw_errto := 30000 |} in
+  map (fun x => snd x)
+      (snd (hg_run HKTcp (hm_full 2) t hg_init
+              [HGTick 1; HGProbe HPRefuse; HGTick 2; HGProbe HPAccept; HGTick 3; HGResp 4 false true;
+               HGProbe HPTimeout; HGTick 5; HGProbe HPRefuse; HGTick 6; HGProbe HPAccept; HGTick 7]))
+  = [[]; []; []; []; [PWONew]; [PWORespOk]; []; []; []; [PWOClose]; []; [PWONew]].
+Proof. reflexivity. Qed.
+
 Example C19_ex_wf_init : pm_wf pm_init.
 Proof. exact pm_wf_init. Qed.
 
